@@ -181,6 +181,18 @@ def iter_cases(spec, n=None, secs=None):
     n = sh.get('n', n if n is not None else 1000)
     secs = sh.get('secs', secs if secs is not None else 60)
     start = sh.get('first_case', 0)
+    if sh.get('mode', 'nrt') == 'nrt' and not os.environ.get('VF_WALL_BUDGET'):
+        # single-threaded shards: the budget is processor time of this worker, so
+        # that a loaded host (other checks, other users) does the same amount of
+        # work, only later; wall clock bounded well inside the shard's hard timeout
+        hard = float(sh.get('hard_timeout', secs + 120))
+        wall_cap = time.time() + min(3.0 * secs, secs + 0.6 * max(0.0, hard - secs))
+        cpu0 = time.process_time()
+        for i in range(start, start + n):
+            if time.process_time() - cpu0 > secs or time.time() > wall_cap:
+                return
+            yield i
+        return
     deadline = time.time() + secs
     for i in range(start, start + n):
         if time.time() > deadline:
